@@ -74,7 +74,8 @@ def cases(draw):
         L = terms[0] if terms else pool[-1]
     tens = [h for h in r.env if r.is_tensor[h]]
     keep_extra = [h for h in tens if draw(st.integers(0, 3)) == 0]
-    actions = draw(st.lists(st.sampled_from(["view", "use", "use", "use", "inplace", "backward2", "null_grad", "read_grad"]),
+    actions = draw(st.lists(st.sampled_from(["view", "use", "use", "use", "inplace", "inplace_via_view", "shape_assign",
+                                             "backward2", "null_grad", "read_grad"]),
                             min_size=1, max_size=4))
     picks = draw(st.lists(st.integers(0, 50), min_size=len(actions), max_size=len(actions)))
     return {"mode": mode, "prog": b.prog, "L": L, "keep": keep_extra, "actions": actions, "picks": picks}
@@ -237,6 +238,25 @@ def check_release(case, rec):
                     return Mismatch("inplace_after_backward_raised", f"h{h}[...] = 0.5 after backward: {fmt_exc(e)}")
                 if x.grad is not None:
                     return Mismatch("stale_grad_after_inplace", f"h{h}.grad is still set after an in-place update of h{h}")
+            elif act == "inplace_via_view":
+                v = x[...]
+                try:
+                    v *= 2.0
+                except Exception as e:  # noqa: BLE001
+                    return Mismatch("inplace_after_backward_raised", f"v = h{h}[...]; v *= 2 after backward: {fmt_exc(e)}")
+                if x.grad is not None or v.grad is not None:
+                    return Mismatch("stale_grad_after_inplace", f"h{h}.grad is still set after an in-place update through a view of h{h}")
+                del v
+            elif act == "shape_assign":
+                if not x.data.flags.c_contiguous:
+                    continue
+                try:
+                    x.shape = (1,) + x.shape if (pk % 2) else (x.size,)
+                except Exception as e:  # noqa: BLE001
+                    return Mismatch("inplace_after_backward_raised", f"h{h}.shape = ... after backward: {fmt_exc(e)}")
+                g1 = x.grad
+                if g1 is not None and g1.shape != x.shape:
+                    return Mismatch("stale_grad_after_inplace", f"h{h}.grad has shape {g1.shape} after h{h}.shape was assigned {x.shape}")
             elif act == "null_grad":
                 x.null_grad()
                 if x.grad is not None:
